@@ -148,6 +148,11 @@ void
 mtbl_sorter_destroy(struct mtbl_sorter **s)
 {
 	if (*s) {
+		/*
+		 * Wait for chunk jobs still in flight: their results are
+		 * delivered into (*s)->readers by the result handler thread.
+		 */
+		result_handler_destroy(&(*s)->rhandler);
 		for (unsigned i = 0; i < entry_vec_size((*s)->vec); i++) {
 			struct entry *ent = entry_vec_value((*s)->vec, i);
 			free(ent);
@@ -160,7 +165,6 @@ mtbl_sorter_destroy(struct mtbl_sorter **s)
 		}
 		reader_vec_destroy(&((*s)->readers));
 
-		result_handler_destroy(&(*s)->rhandler);
 		free((*s)->opt.tmp_dname);
 		my_free(*s);
 	}
